@@ -3,6 +3,7 @@ package main
 // Loading of the real packages, contract files, stubs; Go type -> SMT sort mapping.
 
 import (
+	"sync"
 	"fmt"
 	"go/ast"
 	"go/token"
@@ -18,6 +19,7 @@ import (
 )
 
 type World struct {
+	mu2 sync.Mutex
 	fset    *token.FileSet
 	prog    *ssa.Program
 	pkgs    map[string]*packages.Package // all, by path
@@ -32,6 +34,7 @@ type World struct {
 	lemmas    []*LemmaDef
 	immutable map[string]bool // type strings
 	guarded   []*GuardedBy
+	usedLemmas map[string]bool // lemmas assumed inside function VCs (apply ...): must be proved in the same run
 
 	specFieldNames map[string]bool       // selector names mentioned in any spec
 	ssaFields      map[string]map[int]bool // struct key -> field index
@@ -778,4 +781,13 @@ func namedSort(n string) *Sort {
 	s := &Sort{Name: n}
 	namedSorts[n] = s
 	return s
+}
+
+func (w *World) noteUsedLemma(n string) {
+	w.mu2.Lock()
+	defer w.mu2.Unlock()
+	if w.usedLemmas == nil {
+		w.usedLemmas = map[string]bool{}
+	}
+	w.usedLemmas[n] = true
 }
